@@ -115,7 +115,7 @@ def getD (data : List Nat) (p : Nat) : Nat := data.getD p 0
 /-! ### iterator words -/
 
 inductive ItSt
-  | rows (it : Rows)
+  | rows (it : Rows) (isMut : Bool := false)
   | col (it : Col)
   | flat (s : Flat)
 
@@ -143,12 +143,15 @@ def fmtItems (l : List String) : String := "[" ++ ";".intercalate l ++ "]"
 def itStep (m : Mode) (st : ItSt) (step : String) : Res (String × List Nat × Option ItSt) :=
   let arg : Option Nat := (step.drop 1).toString.toNat?
   match st with
-  | .rows it =>
+  | .rows it isMut =>
     match step.take 1 |>.toString, arg with
-    | "n", _ => do let (x, it') ← it.next; pure (optWin x, winPos x, some (.rows it'))
-    | "b", _ => do let (x, it') ← it.nextBack m; pure (optWin x, winPos x, some (.rows it'))
-    | "N", some k => do let (x, it') ← it.nth m k; pure (optWin x, winPos x, some (.rows it'))
-    | "B", some k => do let (x, it') ← it.nthBack m k; pure (optWin x, winPos x, some (.rows it'))
+    | "n", _ => do let (x, it') ← it.next; pure (optWin x, winPos x, some (.rows it' isMut))
+    | "b", _ => do
+        -- `RowsMut::next_back` has its own text (C08_next_back_mut_eq)
+        let (x, it') ← if isMut then it.nextBackMut m else it.nextBack m
+        pure (optWin x, winPos x, some (.rows it' isMut))
+    | "N", some k => do let (x, it') ← it.nth m k; pure (optWin x, winPos x, some (.rows it' isMut))
+    | "B", some k => do let (x, it') ← it.nthBack m k; pure (optWin x, winPos x, some (.rows it' isMut))
     | "l", _ => do let n ← it.sizeHint m; pure (toString n, [], some st)
     | "h", _ => do let n ← it.sizeHint m; pure (s!"{n}:{n}", [], some st)
     | "w", _ => pure (toString it.cols, [], some st)
